@@ -114,7 +114,7 @@ class Gen:
             spec = ["int", int(v)]
         else:
             spec = ["float", fhex(v)]
-        key = repr(spec[1:]) if spec[0] != "np" else repr(spec)
+        key = fhex(v)  # the reference name of a constant depends on the value only: keep one `like` type per value
         if self.avoid:
             if self.const_like.setdefault(key, t) != t:
                 return self.pick(lambda u: u == t) if self.of_type(lambda u: u == t) else self.new_arg(t)
